@@ -107,6 +107,7 @@ def Ty.inStage1 : Ty → Bool
   | .either ts => Ty.inStage1List ts
   | .vec t => Ty.inStage1 t
   | .any => false
+  | .arr _ t => Ty.inStage1 t
 def Ty.inStage1List : List Ty → Bool
   | [] => true
   | t :: ts => Ty.inStage1 t && Ty.inStage1List ts
@@ -149,13 +150,16 @@ theorem inStage1_inFragment : ∀ (v : View) (ty : Ty), ty.wf = true → ty.inSt
     exact ⟨⟨h1, by rw [h2]; exact hw.1.1⟩, inStage1_inFragment c _ hw.1.2 hs.2 ht.2⟩
   | .tuple vs, ty, hw, hs, ht => by
     cases ty <;> simp [hasTy] at ht
-    simp [Ty.wf] at hw; simp only [Ty.inStage1] at hs
-    simp only [View.inFragment]
-    exact inStage1List_inFragment vs _ hw.2 hs ht
+    · simp [Ty.wf] at hw; simp only [Ty.inStage1] at hs
+      simp only [View.inFragment]
+      exact inStage1List_inFragment vs _ hw.2 hs ht
+    · simp only [View.inFragment]
+      exact inStage1All_inFragment vs _ (by simpa [Ty.wf] using hw) (by simpa [Ty.inStage1] using hs) ht.2
   | .osome v, ty, hw, hs, ht => by
     cases ty <;> simp [hasTy] at ht
     simp only [View.inFragment]
-    exact inStage1_inFragment v _ (by simpa [Ty.wf] using hw) (by simpa [Ty.inStage1] using hs) ht
+    simp [Ty.wf] at hw
+    exact inStage1_inFragment v _ hw.1 (by simpa [Ty.inStage1] using hs) ht
   | .either n i v, ty, hw, hs, ht => by
     cases ty <;> simp [hasTy] at ht
     rename_i ts
@@ -165,7 +169,7 @@ theorem inStage1_inFragment : ∀ (v : View) (ty : Ty), ty.wf = true → ty.inSt
     | none => simp [hi] at ht
     | some t =>
       simp [hi] at ht
-      exact inStage1_inFragment v t (wfList_get ts i t hw.2 hi) (inStage1List_get ts i t hs hi) ht.2
+      exact inStage1_inFragment v t (wfList_get ts i t hw.1.2 hi) (inStage1List_get ts i t hs hi) ht.2
   | .vec vs, ty, hw, hs, ht => by
     cases ty <;> simp [hasTy] at ht
     simp only [View.inFragment]
@@ -340,8 +344,9 @@ theorem C03_any_type_change (tya tyb : Ty) (va vb : View) (old : State) (d : Dom
       some (preT ++ render vb ++ postT)) := by
   have hrep := hok.rep
   simp only [Rep] at hrep
-  have hty : tya.wf = true ∧ hasTy va tya = true := by simpa [HasTy, hasTy] using hta.2
-  have hroots := roots_ne_nil va tya old (some p) hty.1 hty.2 hrep.2
+  have hty : (tya.wf = true ∧ tya.nodeful = true) ∧ hasTy va tya = true := by
+    simpa [HasTy, hasTy] using hta.2
+  have hroots := roots_ne_nil va tya old (some p) hty.1.1 hty.1.2 hty.2 hrep.2
   obtain ⟨h1, h2⟩ := replace_spec va vb old d p pre post hrep.2
     (by simpa [State.roots, owned] using hok.inv) hroots
     (AllEl.mono AttrsFresh_static vb (inFragment_allEl vb hb))
@@ -584,6 +589,36 @@ theorem C03_style_rename_fixed :
 theorem C03_style_rename_witness_old :
     attrsUpdateEqFreshOld false [.psty "color" "red"] [[.psty "width" "1px"], [.psty "--x" "1"]] = false ∧
     attrsUpdateEqFreshOld false [.psty "color" "red"] [[.psty "width" "1px"]] = true := by decide
+
+/-! ## F-C03-6: a node-less OLD branch (`[T; 0]`, tuples / arrays of such) is never replaced -/
+
+/-- `Either<[String; 0], String>`: `Left([])` rebuilt with `Right("x")`.  `Either::rebuild` builds
+the new branch and calls `old.insert_before_this(&mut new)`, which answers `false` (the old state
+has no node to insert before); the answer is ignored, the new branch is never mounted.  Such types
+are outside `Ty.wf` (`Ty.nodeful` fails for the branch); the driver accepts them through
+`Ty.shapeOk` / `hasShape` and classes the failure `nodeless-old-branch`. -/
+theorem C03_nodeless_old_branch_witness :
+    let ty : Ty := .either [.arr 0 .text, .text]
+    let a : View := .either 2 0 (.tuple [])
+    let b : View := .either 2 1 (.text "x")
+    ty.shapeOk = true ∧ hasShape a ty = true ∧ hasShape b ty = true ∧ ty.wf = false ∧
+    updateEqFresh a b = false ∧ a.nodelessBranch = true := by decide
+
+/-- the same through `Option` and through `AnyView` -/
+theorem C03_nodeless_old_branch_witness_opt_any :
+    updateEqFresh (.osome (.tuple [])) .onone = false ∧
+    updateEqFresh (.any (.arr 0 .text) (.tuple [])) (.any .text (.text "x")) = false := by decide
+
+/-- a node-less member is fine as long as the branch has SOME node: the tuple's
+`insert_before_this` falls through to the next member (`a || b || …`), first / middle / last
+position, and such types are inside the proved fragment (`HasTy`, `inFragment`) -/
+example :
+    let ty : Ty := .either [.tuple [.arr 0 .text, .text, .arr 0 .text], .tuple [.text, .arr 0 .text], .arr 2 .text]
+    let a : View := .either 3 0 (.tuple [.tuple [], .text "a", .tuple []])
+    let b : View := .either 3 1 (.tuple [.text "b", .tuple []])
+    let c : View := .either 3 2 (.tuple [.text "c", .text "d"])
+    HasTy a ty ∧ HasTy b ty ∧ HasTy c ty ∧ ty.inStage1 = true ∧ a.inFragment = true ∧
+    updateSeqEqFresh a [b, a, c, a] = true := by decide
 
 /-! ## non-vacuity -/
 
